@@ -15,7 +15,11 @@ def main():
     seed = int(os.environ.get("VERIF_SEED", "0") or 0)
     os.chdir(common.VERIF)
     common.setup_impl_path()
-    mod = importlib.import_module("props." + a.prop.lower())
+    try:
+        mod = importlib.import_module("props." + a.prop.lower())
+    except ImportError as e:
+        print("INFRA-ERROR %s: no check module (%s)" % (a.prop, e))
+        return 2
     chk = common.Check(a.prop, a.tier, seed, clear_replays=not a.replay)
     try:
         if a.replay:
